@@ -1095,6 +1095,10 @@ func (ft *ftrans) selector(c *ast.SelectorExpr, e env, pre *[]prelude) val {
 					return ft.constRef(p, cd)
 				}
 			}
+			// a variable of a library package with a configured reading ("vars": "import/path.Name")
+			if vc, ok := ft.t.mod.Vars[path+"."+c.Sel.Name]; ok {
+				return val{s: vc.Lean, t: vc.Type}
+			}
 			failf("%s.%s is outside the subset", id.Name, c.Sel.Name)
 		}
 	}
